@@ -43,13 +43,13 @@ extern "C" void h_whole_layout(void) {
     // the re-layouts below never add a line break inside the body, so both texts share that ambiguity and need no assumption
     const std::string A = std::string(NAME_A "\n") + body + " /\n";
 #if VAR == 1
-    const std::string B = std::string("\n  \n" NAME_A "   \n\n \t") + body + " \t /\n\n";
+    const std::string B = std::string("\n  \n \t" NAME_A "   \n\n \t") + body + " \t /\n\n";          // blank lines; blanks and a TAB in front of the keyword name and of the record
 #elif VAR == 2
     const std::string B = std::string("-- a comment line\n" NAME_A " -- comment behind the keyword\n-- another\n") + body + " / text after the slash -- and a comment\n-- trailing\n";
 #elif VAR == 3
     const std::string B = std::string(NAME_L "\n") + body + " /\n";
 #else
-    const std::string B = std::string(NAME_A "\n") + body + "\n/\n";
+    const std::string B = std::string(NAME_A "\n") + body + "\n\t/\n";                                  // the slash on a line of its own, indented by a TAB
 #endif
     Opm::Parser parser(false);
     parser.addKeyword<Opm::ParserKeywords::EQLDIMS>(); parser.addKeyword<Opm::ParserKeywords::GRIDUNIT>();
@@ -78,4 +78,23 @@ extern "C" void h_whole_layout(void) {
             }
         }
     }
+}
+
+// quoted strings: the separator between (and after) quoted tokens is a blank, a TAB, a comma, or nothing at all in front of the slash
+extern "C" void h_whole_quoted(void) {
+    unsigned char c1 = nondet_uchar(), c2 = nondet_uchar(), s1 = nondet_uchar(), s2 = nondet_uchar();
+    ASSUME(c1 >= 'A' && c1 <= 'Z' && c2 >= 'A' && c2 <= 'Z');
+    ASSUME(s1 == ' ' || s1 == '\t' || s1 == ','); ASSUME(s2 == ' ' || s2 == '\t' || s2 == ',' || s2 == '\n');
+    std::string q1 = "'M"; q1.push_back((char) c1); q1 += "'"; std::string q2 = "'N"; q2.push_back((char) c2); q2 += "'";
+    const std::string A = std::string("GRIDUNIT\n ") + q1 + " " + q2 + " /\n";
+    std::string B = std::string("GRIDUNIT\n") + q1; B.push_back((char) s1); B += q2; B.push_back((char) s2); B += "/\n";
+    Opm::Parser parser(false);
+    parser.addKeyword<Opm::ParserKeywords::EQLDIMS>(); parser.addKeyword<Opm::ParserKeywords::GRIDUNIT>();
+    Outcome a = parse(parser, A), b = parse(parser, B);
+    CHECK(!a.threw); CHECK(!b.threw);
+    if (a.threw || b.threw) return;
+    CHECK(a.deck.size() == 1 && b.deck.size() == 1);
+    const auto& ra = a.deck[0].getRecord(0); const auto& rb = b.deck[0].getRecord(0);
+    for (std::size_t i = 0; i < 2; ++i) { CHECK(ra.getItem(i).get<std::string>(0) == rb.getItem(i).get<std::string>(0)); CHECK(!rb.getItem(i).defaultApplied(0)); }
+    CHECK(rb.getItem(0).get<std::string>(0)[1] == (char) c1 && rb.getItem(1).get<std::string>(0)[1] == (char) c2);
 }
